@@ -398,13 +398,25 @@ def judge(part, w):
             continue
 
         if hand_ons != 1:
-            viol('C07', 'hand-on-count', 'Popen',
-                 '%s:push=%d:final=%s' % (trig, len(o['push']),
-                                          '+'.join(o['final']) or '-'),
-                 '%s handed on %d times: pushes %s, finals %s'
-                 % (uid, hand_ons, o['push'], o['final']))
+            for prop in ('C07', 'C08') if named else ('C07',):
+                viol(prop, 'hand-on-count', 'Popen',
+                     '%s:push=%d:final=%s' % (trig, len(o['push']),
+                                              '+'.join(o['final']) or '-'),
+                     '%s handed on %d times: pushes %s, finals %s'
+                     % (uid, hand_ons, o['push'], o['final']))
+        if named and len(o['push']) == 1 and not o['final']:
+            # a named task ends CANCELED unless its process finished by itself
+            tgt, ec = o['push'][0]
+            p0 = w.procs.get(uid)
+            natural = p0 is not None and code is not None and p0.code == code
+            if tgt != rps.CANCELED and not (natural and tgt ==
+                    (rps.DONE if code == 0 else rps.FAILED)):
+                viol('C08', 'named-outcome', 'Popen.cancel_task', trig,
+                     '%s: cancel requested, handed on as %s (exit %s), '
+                     'process ended with %s' % (uid, tgt, ec,
+                                                p0.code if p0 else None))
         if o['unsched'] != 1:
-            for prop in ('C07', 'C03'):
+            for prop in ('C07', 'C03', 'C08') if named else ('C07', 'C03'):
                 viol(prop, 'unschedule-count', 'Popen',
                      '%s:n=%d' % (trig, o['unsched']),
                      '%s: %d unschedule publications' % (uid, o['unsched']))
